@@ -77,7 +77,7 @@ func CallsTo(fn, target *ssa.Function, nested bool) []ssa.CallInstruction {
 // method named name on an interface type named ifaceName.
 func IsInvoke(ci ssa.CallInstruction, method string) bool {
 	cc := ci.Common()
-	return cc.IsInvoke() && cc.Method.Name() == method
+	return cc.IsInvoke() && N(cc.Method) == method
 }
 
 // FieldOf resolves a FieldAddr/Field instruction to the struct field it names.
@@ -115,7 +115,7 @@ func StructField(n *types.Named, name string) *types.Var {
 		return nil
 	}
 	for i := 0; i < st.NumFields(); i++ {
-		if st.Field(i).Name() == name {
+		if CanonName(st.Field(i)) == name {
 			return st.Field(i)
 		}
 	}
@@ -394,7 +394,7 @@ func CallsRecover(fn *ssa.Function) bool {
 	found := false
 	Instrs(fn, func(in ssa.Instruction) {
 		if c, ok := in.(*ssa.Call); ok {
-			if b, ok := c.Call.Value.(*ssa.Builtin); ok && b.Name() == "recover" {
+			if b, ok := c.Call.Value.(*ssa.Builtin); ok && N(b) == "recover" {
 				found = true
 			}
 		}
@@ -406,7 +406,7 @@ func CallsRecover(fn *ssa.Function) bool {
 func BuiltinCalls(fn *ssa.Function, name string) []ssa.CallInstruction {
 	var out []ssa.CallInstruction
 	for _, ci := range CallSites(fn) {
-		if b, ok := ci.Common().Value.(*ssa.Builtin); ok && b.Name() == name {
+		if b, ok := ci.Common().Value.(*ssa.Builtin); ok && N(b) == name {
 			out = append(out, ci)
 		}
 	}
